@@ -7,7 +7,7 @@
 //                      globals:{name:text}, mem:{pages,sha,nz:[[addr,hex]...]}, log:[int...]}]}
 // value text: i32/i64 decimal (i64 via BigInt), f32/f64 hex bit pattern, NaN -> "nan".
 // C23 additions (all optional, nothing changes when absent):
-//   import {kind:"func", ext:{params:[wasm type...], norm:[null|[bits, signed]...], ret:null|"i32"|"i64"|"f32"|"f64"}}
+//   import {kind:"func", ext:{params:[wasm type...], norm:[null|[bits, signed]...], ret:null|"i32"|"i64"|"f32"|"f64", retzero:bool}}
 //     -> generated host function: appends [name, [arg text...]] to the run's trace and answers like
 //        vlib.refinterp.default_external (count = number of external calls so far in this run);
 //   module "fresh": true  -> every call runs on a fresh instance; results go to runs:[{ret, trace, mem:[hex...]}]
@@ -83,6 +83,7 @@ function extHost(im, ext) {
     }
     ext.trace.push([im.name, shown]);
     if (!e.ret) return undefined;
+    if (e.retzero) return 0;
     if (e.ret === 'f32' || e.ret === 'f64') return Number(acc % 97n) / 4.0;
     const v = acc % 61n;
     return e.ret === 'i64' ? v : Number(v);
